@@ -1,7 +1,8 @@
 (* Property C08 -- remotely freed memory is never lost (the protocol part).
    Model: Model/TFree.v.  Only statements closed by `exact <lemma>`, Print Assumptions, and Examples.
-   Not in this file: `drain_every_100` (the sequential generic-allocation counter, coordinator) and the
-   quantitative "bounded memory" clause (measured by the scheduler harness, a test).
+   Not in this file: the every-100th-generic-allocation counter that starts the drain (the drain is an operation the owner may
+   start at any time in the model) and the numeric "bounded memory" clause (observed by the `unbounded` oracle of the scheduler
+   harness, tools/props/C08.py: a test).
    `tflist_nonempty_flag` is proved in the corrected form explained at the theorem. *)
 From Coq Require Import NArith List Bool.
 From MiV Require Import Model.TFree Proofs.TFreeBase Proofs.TFreeInv Proofs.TFreeStep5 Proofs.TFreeProofs Proofs.TFreeSolo
